@@ -219,8 +219,12 @@ def observe(nn_state, R, numeric=False, force=None):
         perms, negs = draw.get("perm", []), draw.get("neg", [])
         R.epoch_counter = getattr(R, "epoch_counter", R.start_ep - 1) + 1
         R.ep = R.epoch_counter
-        R.hist.append(dict(k="SH", ep=R.ep, perm=perms[0] if len(perms) == 1 else perms,
-                           neg=(negs[0] if len(negs) == 1 else negs) if negs else []))
+        ev = dict(k="SH", ep=R.ep, perm=perms[0] if perms else [], neg=negs[0] if negs else [])
+        if len(perms) != 1 or len(negs) > 1:
+            # more (or fewer) draws than the single randperm (+ single randint) of the specification:
+            # the extra field makes the event differ from every specification event
+            ev["draws"] = [len(perms), len(negs)]
+        R.hist.append(ev)
         return it
 
     cls_cbg = type(nn_state).compute_batch_gradients
